@@ -1,6 +1,7 @@
 pub mod common;
 pub mod c01;
 pub mod c04;
+pub mod c05;
 pub mod c06;
 pub mod c07;
 pub mod c08;
@@ -8,6 +9,8 @@ pub mod c09;
 pub mod c10;
 pub mod c11;
 pub mod c12;
+pub mod c17;
+pub mod c18;
 pub mod c19;
 
 use crate::engine::{self, Property, Tier};
@@ -26,6 +29,7 @@ pub fn dispatch(id: &str, tier: Tier, seed: u64, replay: Option<&str>) -> i32 {
     match id {
         "C01" => run(&c01::C01, tier, seed, replay),
         "C04" => run(&c04::C04, tier, seed, replay),
+        "C05" => run(&c05::C05, tier, seed, replay),
         "C06" => run(&c06::C06, tier, seed, replay),
         "C07" => run(&c07::C07, tier, seed, replay),
         "C08" => run(&c08::C08, tier, seed, replay),
@@ -33,6 +37,8 @@ pub fn dispatch(id: &str, tier: Tier, seed: u64, replay: Option<&str>) -> i32 {
         "C10" => run(&c10::C10, tier, seed, replay),
         "C11" => run(&c11::C11, tier, seed, replay),
         "C12" => run(&c12::C12, tier, seed, replay),
+        "C17" => run(&c17::C17, tier, seed, replay),
+        "C18" => run(&c18::C18, tier, seed, replay),
         "C19" => run(&c19::C19, tier, seed, replay),
         _ => {
             eprintln!("unknown property id {}", id);
